@@ -401,7 +401,15 @@ def gen_nmea(rng, tables, valid=True, crlf=True):
 
 
 def gen_ubx(rng, maxlen=40, syncy=False):
-    n = rng.choice([0, 1, 2, 8, rng.randint(0, maxlen)])
+    n = rng.choice([0, 1, 2, 8, rng.randint(0, maxlen), rng.randint(0, maxlen), 255, 256, 257, rng.randint(256, 700)])
+    if n >= 255 and syncy:
+        # long frames: sync-dense payload including plausible RTCM3 / NMEA / UBX headers
+        pat = [b"\xd3\x00\x13", b"\xd3\x01\x00", b"$G", b"\xb5\x62\x01\x02\x04\x00", b"\x00", b"\x0a", bytes([rng.randrange(256)])]
+        pl = b""
+        while len(pl) < n:
+            pl += rng.choice(pat)
+        pl = pl[:n]
+        return b"\xb5\x62" + bytes([rng.randrange(256), rng.randrange(256)]) + n.to_bytes(2, "little") + pl + bytes([rng.choice([0xd3, 0x24, 0xb5, rng.randrange(256)]), rng.randrange(256)])
     pl = bytes(rng.choice([0xd3, 0xb5, 0x24, 0x62]) if syncy and rng.random() < 0.5 else rng.randrange(256) for _ in range(n))
     return b"\xb5\x62" + bytes([rng.randrange(256), rng.randrange(256)]) + n.to_bytes(2, "little") + pl + bytes([rng.randrange(256), rng.randrange(256)])
 
